@@ -24,6 +24,7 @@ EXPLANATION = (
     'reads the exception / returns; D10 task memory: the small-object pool\'s private list is touched only by its owner, a '
     'foreign free pushes onto the public list by a CAS loop with the link written before every attempt, the owner takes the '
     'public list by one exchange.  It does NOT decide absence of loss/duplication over all interleavings as such.')
+EXPLANATION += ' Added after the seeded-change rounds: ' + 'D1 also: every ordering comparison on the result of an arbitration RMW (T = --tail, H = ++head) is evaluated signed; D3 also: a task that get_task/steal_task hands out is removed from the index range that is restored or re-published (null hole, or head moved past it) on every path on which the returned pointer is non-null (path-sensitive in the returned variable).'
 ASSUMPTIONS = ['clang 14 selects the same declarations as the g++ 12 build for the analysed constructs',
                'C++11 memory model; seq_cst RMWs and seq_cst fences are the only full fences',
                'task classes not instantiated by drivers/*.cpp are not analysed']
